@@ -379,13 +379,21 @@ class ColorVisuals(Visuals):
         """
         Apply a mask to remove or duplicate vertex properties.
         """
+        # default colors which were edited in place are user data
+        self._verify_hash()
         self._update_key(mask, "vertex_colors")
+        # generated colors refer to the elements before the mask
+        self._cache.clear()
 
     def update_faces(self, mask: ArrayLike):
         """
         Apply a mask to remove or duplicate face properties
         """
+        # default colors which were edited in place are user data
+        self._verify_hash()
         self._update_key(mask, "face_colors")
+        # generated colors refer to the elements before the mask
+        self._cache.clear()
 
     def face_subset(self, face_index: ArrayLike):
         """
